@@ -466,12 +466,22 @@ func (d *Describer) inlineHelper(c *ssa.CallCommon, k int, depth int) (string, b
 			set[sd.val(v, depth)] = true
 		}
 	}
-	if len(set) != 1 {
+	if len(set) == 0 || len(set) > 4 {
 		return "", false
 	}
 	var body string
-	for s := range set {
-		body = s
+	if len(set) == 1 {
+		for s := range set {
+			body = s
+		}
+	} else {
+		// several returns: the result is one of them, like a phi of the inlined code
+		var parts []string
+		for s := range set {
+			parts = append(parts, s)
+		}
+		sort.Strings(parts)
+		body = "phi{" + strings.Join(parts, "|") + "}"
 	}
 	var args []string
 	for _, a := range c.Args {
